@@ -135,3 +135,57 @@ M("r2e-empty-grammar-skips-term-sets", ["C14"], "break",
   [("yaep.c", "      term_set_empty (grammar->term_sets_ptr);\n", "")], "yaep_empty_grammar/term_set_empty")
 M("r2e-trans-vect-not-nulled", ["C14"], "break",
   [("yaep.c", "      yaep_free (grammar->alloc, symbs->symb_code_trans_vect);\n      symbs->symb_code_trans_vect = NULL;", "      yaep_free (grammar->alloc, symbs->symb_code_trans_vect);")], "symb_code_trans_vect")
+
+# ---- R4 (C12) --------------------------------------------------------------------------------
+M("r4a-revert-F9-vsprintf", ["C12"], "break",
+  [("yaep.c", "  vsnprintf (grammar->error_message, YAEP_MAX_ERROR_MESSAGE_LENGTH, format,\n	     arguments);", "  vsprintf (grammar->error_message, format, arguments);")], "yaep_error#")
+M("r4a-vsnprintf-too-large", ["C12"], "break",
+  [("yaep.c", "  vsnprintf (grammar->error_message, YAEP_MAX_ERROR_MESSAGE_LENGTH, format,", "  vsnprintf (grammar->error_message, 2 * YAEP_MAX_ERROR_MESSAGE_LENGTH + 2, format,")], "yaep_error/sink")
+M("r4a-lexer-sprintf-small-buffer", ["C12"], "break",
+  [("sgramm.y", "		  char str[100];", "		  char str[20];")], "yaep_yylex/sprintf")
+M("r4a-benign-shorter-message", ["C12"], "benign",
+  [("yaep.c", "\"undefined or bad grammar\"", "\"bad grammar\"")])
+M("r4b-revert-F10", ["C12"], "break",
+  [("sgramm.y", "	  if (c == '\\0')\n	    /* Do not read behind the end of the description.  */\n	    yyerror (\"invalid character\");\n", "")], "yaep_yylex/read#")
+M("r4b-comment-no-eof-check", ["C12", "C11"], "break",
+  [("sgramm.y", "	      if (c == '\\0')\n		yyerror (\"unfinished comment\");\n", "")], "yaep_yylex/read#")
+M("r4b-ident-no-unget", ["C12", "C11"], "break",
+  [("sgramm.y", "	      while ((c = *curr_ch++) != '\\0' && (isalnum (c) || c == '_'))\n		OS_TOP_ADD_BYTE (stoks, c);\n	      curr_ch--;", "	      while ((c = *curr_ch++) != '\\0' && (isalnum (c) || c == '_'))\n		OS_TOP_ADD_BYTE (stoks, c);")], "yaep_yylex/")
+M("r4b-number-no-unget", ["C12", "C11"], "break",
+  [("sgramm.y", "		yylval.num = yylval.num * 10 + (c - '0');\n	      curr_ch--;", "		yylval.num = yylval.num * 10 + (c - '0');")], "yaep_yylex/")
+M("r4b-benign-for-loop-form", ["C12"], "benign",
+  [("sgramm.y", "	      while ((c = *curr_ch++) != '\\0' && isdigit (c))\n		yylval.num = yylval.num * 10 + (c - '0');\n	      curr_ch--;",
+    "	      for (;;)\n		{\n		  c = *curr_ch++;\n		  if (c == '\\0' || !isdigit (c))\n		    break;\n		  yylval.num = yylval.num * 10 + (c - '0');\n		}\n	      curr_ch--;")])
+M("r4d-revert-F8", ["C12", "C15"], "break",
+  [("yaep.c", "      for (i = 0; i < max_code - min_code + 1; i++)\n	symbs_ptr->symb_code_trans_vect[i] = NULL;\n", "")], "symb_code_trans_vect")
+M("r4d-F8-off-by-one", ["C12", "C15"], "break",
+  [("yaep.c", "      for (i = 0; i < max_code - min_code + 1; i++)\n	symbs_ptr->symb_code_trans_vect[i] = NULL;", "      for (i = 0; i < max_code - min_code; i++)\n	symbs_ptr->symb_code_trans_vect[i] = NULL;")], "symb_code_trans_vect")
+M("r4d-F8-benign-le-form", ["C12", "C15"], "benign",
+  [("yaep.c", "      for (i = 0; i < max_code - min_code + 1; i++)\n	symbs_ptr->symb_code_trans_vect[i] = NULL;", "      for (i = 0; i <= max_code - min_code; i++)\n	symbs_ptr->symb_code_trans_vect[i] = NULL;")])
+M("r4d-children-not-terminated", ["C12", "C02"], "break",
+  [("yaep.c", "for (k = 0; k <= sit_rule->trans_len; k++)", "for (k = 0; k < sit_rule->trans_len; k++)")], "make_parse/anode.children")
+M("r4d-children-alloc-too-small", ["C12", "C02"], "break",
+  [("yaep.c", "* (sit_rule->trans_len + 1)));", "* (sit_rule->trans_len)));")], "make_parse/anode.children")
+M("r4d-copy-anode-short", ["C12", "C02"], "break",
+  [("yaep.c", "  for (i = 0; i <= rule->trans_len; i++)\n    node->val.anode.children[i] = anode->val.anode.children[i];", "  for (i = 0; i < rule->trans_len; i++)\n    node->val.anode.children[i] = anode->val.anode.children[i];")], "copy_anode/anode.children")
+M("r4d-term-node-array-uninit", ["C12"], "break",
+  [("yaep.c", "      for (i = 0; i < toks_len; i++)\n	term_node_array[i] = NULL;\n", "")], "make_parse/term_node_array")
+M("r4d-order-uninit", ["C12"], "break",
+  [("yaep.c", "  for (i = 0; i < rules_ptr->curr_rule->rhs_len; i++)\n    rules_ptr->curr_rule->order[i] = -1;\n", "")], "rule_new_stop/rule.order")
+M("r4d-sit-row-short", ["C12"], "break",
+  [("yaep.c", "	  for (i = 0; i < rules_ptr->n_rhs_lens + rules_ptr->n_rules; i++)\n	    (*ptr)[i] = NULL;\n	  ptr++;\n	}\n    }\n  if ((sit =",
+    "	  for (i = 0; i < rules_ptr->n_rhs_lens; i++)\n	    (*ptr)[i] = NULL;\n	  ptr++;\n	}\n    }\n  if ((sit =")], "sit_create/sits_os")
+M("r4d-hash-entries-short", ["C12", "C19"], "break",
+  [("hashtab.c", "  for (entry_ptr = result->entries;\n       entry_ptr < result->entries + size; entry_ptr++)", "  for (entry_ptr = result->entries;\n       entry_ptr < result->entries + size - 1; entry_ptr++)")], "create_hash_table/hash_table_t.entries")
+M("r4d-benign-hash-index-loop", ["C12", "C19"], "benign",
+  [("hashtab.c", "  for (entry_ptr = result->entries;\n       entry_ptr < result->entries + size; entry_ptr++)\n    *entry_ptr = EMPTY_ENTRY;\n  return result;",
+    "  {\n    size_t k;\n    for (k = 0; k < size; k++)\n      result->entries[k] = EMPTY_ENTRY;\n  }\n  (void) entry_ptr;\n  return result;")])
+M("r4c-upper-guard-off-by-one", ["C12", "C15"], "break",
+  [("yaep.c", "          || (code >= symbs_ptr->symb_code_trans_vect_end))", "          || (code > symbs_ptr->symb_code_trans_vect_end))")], "symb_find_by_code/")
+M("r4c-lower-guard-missing", ["C12", "C15"], "break",
+  [("yaep.c", "      if ((code < symbs_ptr->symb_code_trans_vect_start)\n          || (code >= symbs_ptr->symb_code_trans_vect_end))", "      if (code >= symbs_ptr->symb_code_trans_vect_end)")], "symb_find_by_code/")
+M("r4c-end-off-by-one", ["C12", "C15"], "break",
+  [("yaep.c", "      symbs_ptr->symb_code_trans_vect_end = max_code + 1;", "      symbs_ptr->symb_code_trans_vect_end = max_code + 2;")], "extent")
+M("r4c-benign-positive-form", ["C12", "C15"], "benign",
+  [("yaep.c", "      if ((code < symbs_ptr->symb_code_trans_vect_start)\n          || (code >= symbs_ptr->symb_code_trans_vect_end))\n        {\n          return NULL;\n        }\n      else\n        {\n          return symbs_ptr->symb_code_trans_vect\n            [code - symbs_ptr->symb_code_trans_vect_start];\n        }",
+    "      if (code >= symbs_ptr->symb_code_trans_vect_start\n          && code <= symbs_ptr->symb_code_trans_vect_end - 1)\n        return symbs_ptr->symb_code_trans_vect\n          [code - symbs_ptr->symb_code_trans_vect_start];\n      return NULL;")])
